@@ -497,10 +497,14 @@ pub struct PayloadGen<'a> {
     pub max_list: usize,
     /// budget that stops recursive fragments: below it nullable positions are null, lists empty
     pub depth_budget: usize,
+    /// percentage of null values at nullable positions that are written as an ABSENT key instead
+    /// (what a server sends for a field skipped by `@skip` / `@include`; C01 / C16 treat null and absent alike)
+    pub absent_percent: u32,
 }
 
 #[derive(Default, Clone, Debug)]
 pub struct PayloadStats {
+    pub absent: usize,
     pub abstract_positions: usize,
     pub lists: usize,
     pub nulls: usize,
@@ -560,7 +564,12 @@ impl<'a> PayloadGen<'a> {
                 Some(d) => d,
                 None => continue,
             };
-            m.insert(key, self.value(rng, &def.ty, &sub, budget, st));
+            let v = self.value(rng, &def.ty, &sub, budget, st);
+            if v.is_null() && !def.ty.is_non_null() && self.absent_percent > 0 && rng.chance(self.absent_percent) {
+                st.absent += 1;
+                continue;
+            }
+            m.insert(key, v);
         }
         Value::Object(m)
     }
